@@ -140,7 +140,7 @@ func isoPlainConfigYAML(tree *SrcTree, scriptsDir string) string {
 	src := func(rel string) string { return q(filepath.Join(tree.Root, rel)) }
 	var b strings.Builder
 	b.WriteString("name: isoplain\narch: arm7\nversion: \"1.4.0-rc1\"\nmtime: 2023-11-14T22:13:20Z\ndescription: no override blocks\nmaintainer: \"Verif <verif@example.com>\"\n")
-	b.WriteString("depends: [libc, \"zlib (>= 1.2)\"]\nprovides: [virt]\nrpm:\n  buildhost: buildhost.example\ndeb:\n  fields:\n    Bugs: x\nipk:\n  fields:\n    Custom: y\n")
+	b.WriteString("depends: [/bin/sh, libc, \"zlib (>= 1.2)\"]\nrecommends: [/usr/bin/perl, less]\nprovides: [virt]\nrpm:\n  buildhost: buildhost.example\ndeb:\n  fields:\n    Bugs: x\nipk:\n  fields:\n    Maintainer: dup\n    Custom: y\n")
 	if changelog != "" {
 		fmt.Fprintf(&b, "changelog: %s\n", q(changelog))
 	}
@@ -816,6 +816,8 @@ func runC11(c *Ctx) error {
 			slot = 0 // the dense configuration gets the first sequences
 		} else if i < 70 && len(pool) > 1 {
 			slot = 1 // the configuration without override blocks the next ones
+		} else if i < 100 && len(pool) > 2 {
+			slot = 2 // … and one whose version carries a trailing blank (not a semantic version: used verbatim)
 		}
 		if pool[slot] == nil {
 			y := genIsoConfigYAML(r2, tree, scripts)
@@ -824,6 +826,9 @@ func runC11(c *Ctx) error {
 			}
 			if slot == 1 {
 				y = isoPlainConfigYAML(tree, scripts)
+			}
+			if slot == 2 {
+				y = strings.Replace(isoPlainConfigYAML(tree, scripts), "version: \"1.4.0-rc1\"", "version: \"1.4.0 \"", 1)
 			}
 			base, err := isoBaselines(y)
 			if err != nil {
@@ -850,6 +855,13 @@ func runC11(c *Ctx) error {
 			default:
 				seq[j] = isoOp{Kind: "package", Format: rng.Pick(r2, Formats)}
 				hasPkg = true
+			}
+		}
+		if i >= 70 && i < 100 {
+			seq[0] = isoOp{Kind: "validate"} // validation first: it must leave the settings as written
+			if n == 1 {
+				seq = append(seq, isoOp{Kind: "package", Format: rng.Pick(r2, Formats)})
+				n, hasPkg = 2, true
 			}
 		}
 		fam2.Eval(isoKey(ic.YAML)+"|"+strings.Join(isoOpsStrings(seq), ","), hasPkg && n >= 2)
